@@ -72,6 +72,10 @@ pub fn show_txrec(t: &Transaction) -> String {
     )
 }
 
+pub fn parse_txrec_pub(s: &str) -> Option<Transaction> {
+    parse_txrec(s)
+}
+
 fn parse_txrec(s: &str) -> Option<Transaction> {
     let f: Vec<&str> = s.split(':').collect();
     if f.len() != 7 {
@@ -105,6 +109,10 @@ pub fn show_mr(r: &MatchResult) -> String {
         show_list(r.transactions.as_vec(), show_txrec),
         show_list(&r.filled_order_ids, show_id)
     )
+}
+
+pub fn parse_mr_pub(s: &str) -> Option<MatchResult> {
+    parse_mr(s)
 }
 
 fn parse_mr(s: &str) -> Option<MatchResult> {
